@@ -86,4 +86,107 @@ RStmt(s, vs, fs) ==
     [] OTHER -> [s |-> s, vs |-> vs]
 
 Resolve(body) == RBlock(body, <<>>, <<>>)
+
+(***************************************************************************)
+(* Static semantics, part 2: the verdict.  Check(body) is the set of       *)
+(* categories of static rules the program breaks ({} = accepted).          *)
+(* Rules (docs + property C09): a variable must be in scope to be used or  *)
+(* assigned; a function must be in scope and called with as many arguments *)
+(* as it has parameters; comot/next only inside a loop OF THE SAME         *)
+(* FUNCTION; return only inside a function; no two functions of one name   *)
+(* in a block; no repeated parameter; no built-in name as a name; and an   *)
+(* operator, condition or index whose operand has a statically KNOWN wrong *)
+(* type (a literal's type, or the type a variable was declared with) is a  *)
+(* type error.  Anything whose type is only known at run time (parameters, *)
+(* call results, elements) is never a static type error.                   *)
+(***************************************************************************)
+RECURSIVE TyIn(_, _, _)
+TyIn(scopes, i, name) ==
+  IF i = 0 THEN "none"
+  ELSE LET sc == scopes[i]  I == {j \in 1..Len(sc) : sc[j].n = name} IN
+       IF I # {} THEN sc[CHOOSE j \in I : \A q \in I : q <= j].ty ELSE TyIn(scopes, i - 1, name)
+TyOf(scopes, name) == TyIn(scopes, Len(scopes), name)
+RECURSIVE FunIn(_, _, _)
+FunIn(scopes, i, name) ==
+  IF i = 0 THEN -1
+  ELSE LET sc == scopes[i]  I == {j \in 1..Len(sc) : sc[j].n = name} IN
+       IF I # {} THEN sc[CHOOSE j \in I : \A q \in I : j <= q].arity ELSE FunIn(scopes, i - 1, name)
+Arith == {"minus", "times", "divide", "mod"}
+RECURSIVE TypeOf(_, _)
+TypeOf(e, vs) ==
+  CASE e.k \in {"num", "str", "bool", "null", "arr"} -> e.k
+    [] e.k = "var" -> LET t == TyOf(vs, e.n) IN IF t = "none" THEN "dyn" ELSE t
+    [] e.k = "bin" -> (IF e.op \in Arith THEN "num"
+                      ELSE IF e.op = "add" THEN (LET l == TypeOf(e.l, vs)  r == TypeOf(e.r, vs) IN
+                                                 IF l = "str" \/ r = "str" THEN "str" ELSE IF l = "num" /\ r = "num" THEN "num" ELSE "dyn")
+                      ELSE "bool")
+    [] e.k = "un" -> (IF e.op = "not" THEN "bool" ELSE "num")
+    [] OTHER -> "dyn"
+Known(t) == t # "dyn"
+Boolish(t) == t \in {"bool", "null", "dyn"}
+RECURSIVE CExpr(_, _, _)
+CExpr(e, vs, fs) ==
+  CASE e.k = "var" -> (IF TyOf(vs, e.n) = "none" THEN {"undeclared-variable"} ELSE {})
+    [] e.k = "str" -> UNION {IF e.segs[j].k = "var" /\ TyOf(vs, e.segs[j].n) = "none" THEN {"undeclared-variable"} ELSE {} : j \in 1..Len(e.segs)}
+    [] e.k = "bin" ->
+         LET l == TypeOf(e.l, vs)  r == TypeOf(e.r, vs)
+             bad == CASE e.op \in Arith -> (Known(l) /\ l # "num") \/ (Known(r) /\ r # "num")
+                      [] e.op = "add" -> (Known(l) /\ l \notin {"num", "str"}) /\ (Known(r) /\ r \notin {"num", "str"})
+                      [] e.op \in {"na", "pass", "lt"} -> Known(l) /\ Known(r) /\ l # r /\ l # "null" /\ r # "null"
+                      [] e.op \in {"and", "or"} -> ~Boolish(l) \/ ~Boolish(r)
+         IN CExpr(e.l, vs, fs) \cup CExpr(e.r, vs, fs) \cup (IF bad THEN {"type"} ELSE {})
+    [] e.k = "un" ->
+         LET t == TypeOf(e.e, vs) IN
+         CExpr(e.e, vs, fs) \cup (IF (e.op = "not" /\ ~Boolish(t)) \/ (e.op = "neg" /\ Known(t) /\ t # "num") THEN {"type"} ELSE {})
+    [] e.k = "arr" -> UNION {CExpr(e.es[j], vs, fs) : j \in 1..Len(e.es)}
+    [] e.k = "idx" ->
+         LET a == TypeOf(e.a, vs)  i == TypeOf(e.i, vs) IN
+         CExpr(e.a, vs, fs) \cup CExpr(e.i, vs, fs) \cup (IF (Known(a) /\ a # "arr") \/ (Known(i) /\ i # "num") THEN {"type"} ELSE {})
+    [] e.k = "call" ->
+         LET args == UNION {CExpr(e.as[j], vs, fs) : j \in 1..Len(e.as)}
+             ar == IF e.f \in GlobalBuiltins THEN 1 ELSE FunIn(fs, Len(fs), e.f)
+         IN args \cup (IF ar < 0 THEN {"undeclared-function"} ELSE IF ar # Len(e.as) THEN {"arity"} ELSE {})
+    [] e.k = "mcall" -> CExpr(e.o, vs, fs) \cup UNION {CExpr(e.as[j], vs, fs) : j \in 1..Len(e.as)}
+    [] OTHER -> {}
+
+AddTy(scopes, name, ty) == [scopes EXCEPT ![Len(scopes)] = Append(@, [n |-> name, ty |-> ty])]
+\* function table of a block: the first definition of each name
+RECURSIVE FunTable(_, _, _)
+FunTable(stmts, i, acc) ==
+  IF i > Len(stmts) THEN acc
+  ELSE IF stmts[i].k = "def" /\ ~\E j \in 1..Len(acc) : acc[j].n = stmts[i].n
+       THEN FunTable(stmts, i + 1, Append(acc, [n |-> stmts[i].n, arity |-> Len(stmts[i].ps)]))
+       ELSE FunTable(stmts, i + 1, acc)
+DupFuns(stmts) == IF \E i, j \in 1..Len(stmts) : i < j /\ stmts[i].k = "def" /\ stmts[j].k = "def" /\ stmts[i].n = stmts[j].n
+                  THEN {"duplicate-function"} ELSE {}
+\* ctx = [loop |-> BOOLEAN, fun |-> BOOLEAN]
+RECURSIVE CBlock(_, _, _, _), CStmts(_, _, _, _, _)
+CBlock(stmts, vs, fs, ctx) == DupFuns(stmts) \cup CStmts(stmts, 1, Append(vs, <<>>), Append(fs, FunTable(stmts, 1, <<>>)), ctx)
+CStmts(stmts, i, vs, fs, ctx) ==
+  IF i > Len(stmts) THEN {}
+  ELSE LET s == stmts[i]
+           declared == IF s.k = "make" THEN AddTy(vs, s.n, TypeOf(s.e, vs)) ELSE IF s.k = "make0" THEN AddTy(vs, s.n, "null") ELSE vs
+           here ==
+             CASE s.k = "make" -> CExpr(s.e, vs, fs) \cup (IF s.n \in GlobalBuiltins THEN {"reserved-name"} ELSE {})
+               [] s.k = "make0" -> (IF s.n \in GlobalBuiltins THEN {"reserved-name"} ELSE {})
+               [] s.k = "set" -> CExpr(s.e, vs, fs) \cup (IF TyOf(vs, s.n) = "none" THEN {"assign-undeclared"} ELSE {})
+               [] s.k = "seti" -> CExpr(s.e, vs, fs) \cup UNION {CExpr(s.is[j], vs, fs) : j \in 1..Len(s.is)}
+                                  \cup (IF TyOf(vs, s.n) = "none" THEN {"undeclared-variable"} ELSE {})
+               [] s.k = "expr" -> CExpr(s.e, vs, fs)
+               [] s.k = "ret" -> CExpr(s.e, vs, fs) \cup (IF ctx.fun THEN {} ELSE {"return-outside-function"})
+               [] s.k = "ret0" -> (IF ctx.fun THEN {} ELSE {"return-outside-function"})
+               [] s.k = "brk" -> (IF ctx.loop THEN {} ELSE {"break-outside-loop"})
+               [] s.k = "cont" -> (IF ctx.loop THEN {} ELSE {"continue-outside-loop"})
+               [] s.k = "if" -> CExpr(s.c, vs, fs) \cup (IF ~Boolish(TypeOf(s.c, vs)) THEN {"type"} ELSE {})
+                                \cup CBlock(s.t, vs, fs, ctx) \cup (IF s.f = <<>> THEN {} ELSE CBlock(s.f[1], vs, fs, ctx))
+               [] s.k = "loop" -> CExpr(s.c, vs, fs) \cup (IF ~Boolish(TypeOf(s.c, vs)) THEN {"type"} ELSE {})
+                                  \cup CBlock(s.b, vs, fs, [ctx EXCEPT !.loop = TRUE])
+               [] s.k = "block" -> CBlock(s.b, vs, fs, ctx)
+               [] s.k = "def" ->
+                    (IF s.n \in GlobalBuiltins \/ \E j \in 1..Len(s.ps) : s.ps[j] \in GlobalBuiltins THEN {"reserved-name"} ELSE {})
+                    \cup (IF \E a, b \in 1..Len(s.ps) : a < b /\ s.ps[a] = s.ps[b] THEN {"duplicate-parameter"} ELSE {})
+                    \* a function body is neither inside the loops nor inside the conditionals around its definition
+                    \cup CBlock(s.b, Append(vs, [j \in 1..Len(s.ps) |-> [n |-> s.ps[j], ty |-> "dyn"]]), fs, [loop |-> FALSE, fun |-> TRUE])
+       IN here \cup CStmts(stmts, i + 1, declared, fs, ctx)
+Check(body) == CBlock(body, <<>>, <<>>, [loop |-> FALSE, fun |-> FALSE])
 =============================================================================
